@@ -429,6 +429,9 @@ pub struct DriverObs {
     pub driver: String,
     pub driver_panic: Option<String>,
     pub caller_panics: Vec<String>,
+    /// had the pending bind already been resolved after the hostile frame and a quiescence barrier,
+    /// i.e. before anything else (valid follow-up, EOF) was sent?
+    pub bind_resolved_before_anything_else: bool,
 }
 
 fn envelope_class(input: &[u8]) -> &'static str {
@@ -531,6 +534,7 @@ pub fn observe_driver_case(rng: &mut Rng, forced: Option<Vec<u8>>) -> (DriverObs
         world::settle().await;
         server.send(&input2);
         world::settle().await;
+        let resolved_early = t1.is_finished();
         if follow_with_valid {
             server.send(&ber::encode_min(&resp_node(1, &Resp::Bind { res: Res::ok("ok"), sasl: None }, None)));
             server.send(&ber::encode_min(&resp_node(2, &Resp::Done(Res::ok("done")), None)));
@@ -540,7 +544,7 @@ pub fn observe_driver_case(rng: &mut Rng, forced: Option<Vec<u8>>) -> (DriverObs
         let bind = t1.await.unwrap_or_else(|_| "task-died".into());
         let stream = t2.await.unwrap_or_else(|_| vec!["task-died".into()]);
         let d = world::watchdog(c.driver).await;
-        let mut o = DriverObs { bind, stream, ..Default::default() };
+        let mut o = DriverObs { bind, stream, bind_resolved_before_anything_else: resolved_early, ..Default::default() };
         match d {
             Ok(Ok(Ok(Ok(())))) => o.driver = "Ok".into(),
             Ok(Ok(Ok(Err(e)))) => o.driver = format!("Err({})", e),
@@ -574,6 +578,10 @@ fn judge_driver_case(i: u64, rep: &mut Report, obs: &DriverObs, input: &[u8], la
     if complete && envelope_class(&input) == "not-an-envelope" && obs.driver_panic.is_none() {
         let bind_err = obs.bind.starts_with("Err(");
         let stream_err = obs.stream.iter().any(|s| s.starts_with("Err(") || s.starts_with("start:Err("));
+        if !obs.bind_resolved_before_anything_else {
+            // the frame is complete by its own outer length: it has to be rejected now, not when (if ever) more bytes arrive
+            rep.violation("C11:wedge:complete-non-envelope-frame-not-rejected-until-more-input-arrives", format!("frame {} ({}): the pending bind was still waiting after the frame and a quiescence barrier; later: driver {} bind {}", ber::hex(&input[..input.len().min(80)]), label, obs.driver, obs.bind), replay.clone());
+        }
         if !obs.driver.starts_with("Err(") || !bind_err || !stream_err {
             rep.violation("C11:non-envelope-input-did-not-end-the-connection-with-an-error", format!("frame {} ({}): driver {} bind {} stream {:?}", ber::hex(&input[..input.len().min(80)]), label, obs.driver, obs.bind, obs.stream), replay.clone());
         }
